@@ -23,6 +23,7 @@ BITS = {"BitAnd": "&", "BitOr": "|", "BitXor": "^"}
 COPS = {"CLt": "<", "CLe": "<=", "CGt": ">", "CGe": ">=", "CEq": "==", "CNe": "!="}
 
 LEGACY_FILES = ["C01/ExprX.v", "C01/ExprXWord.v", "C01/ExprXProofs.v"]
+BRIDGE_FILES = ["C01/ExprXBridge.v"]
 VENOM_FILES = ["C01V/VExprX.v", "C01V/VExprXProofs.v", "C01V/PropsVExprX.v"]
 C03_DEPS = ["C03/LIR.v", "C03/ArithSpec.v", "C03/WordArith.v", "C03/TypeLemmas.v", "C03/ArithModel.v", "C03/LegacyExact.v",
             "C03/TieBase.v", "C03/VSL.v", "C03/VenomExact.v"]
@@ -378,7 +379,7 @@ def program(leaves, e, ret=False):
     for n, t in sto:
         lines.append(f"{n}: {ty_vy(t)}")
     if ret and sto:
-        lines += ["", "@external", "def init(" + ", ".join(f"a{i}: {ty_vy(t)}" for i, (_, t) in enumerate(sto)) + "):"]
+        lines += ["", "@external", "def setvars(" + ", ".join(f"a{i}: {ty_vy(t)}" for i, (_, t) in enumerate(sto)) + "):"]
         lines += [f"    self.{n} = a{i}" for i, (n, _) in enumerate(sto)]
     lines += ["", "@external", "def f(" + ", ".join(f"p{i}: {ty_vy(t)}" for i, (_, t) in enumerate(loc)) + ")" +
               (f" -> {ty_vy(e.ty)}:" if ret else ":")]
@@ -417,6 +418,61 @@ def gen_sample(rng, depth):
     if e.k in ("lit", "var") or has_const_only(e):
         return None
     return leaves, e
+
+
+def probe_samples():
+    """a fixed table walked completely in every run: every new operator at its types, small expressions, operands = locals
+    and state variables -> [(leaves, e)]"""
+    out = []
+
+    def two(t, tb=None, sto_b=False):
+        tb = tb or t
+        leaves = [("v0", t, False), ("v1", tb, False), ("s0", tb, True)]
+        a = X("var", t, name="v0", sto=False)
+        b = X("var", tb, name="s0", sto=True) if sto_b else X("var", tb, name="v1", sto=False)
+        return leaves, a, b
+    k = 0
+    for t in (U256, I256):
+        for sh in ("shl", "shr"):
+            for tb, lit in ((U256, None), (U8, None), (U256, 3), (U256, 256)):
+                k += 1
+                leaves, a, b = two(t, tb, sto_b=(k % 2 == 0))
+                if lit is not None:
+                    b = X("lit", U256, v=lit)
+                out.append((leaves, X("p2", t, op=(sh, t, tb), a=a, b=b)))
+    leaves, a, b = two(U256)
+    out.append((leaves, X("p1", U256, op=("inv",), a=a)))
+    out.append((leaves, X("p2", U256, op=("bit", "BitXor", U256), a=X("p1", U256, op=("inv",), a=b), b=a)))
+    for n in (3, 256, 1):
+        t = ("f", n)
+        leaves, a, b = two(t, sto_b=True)
+        out.append((leaves, X("p2", "bool", op=("in", False, n), a=a, b=b)))
+        out.append((leaves, X("p2", "bool", op=("in", True, n), a=a, b=b)))
+        out.append((leaves, X("p1", t, op=("invf", n), a=a)))
+        if n == 3:
+            for bo in BITS:
+                out.append((leaves, X("p2", t, op=("bit", bo, t), a=a, b=b)))
+            out.append((leaves, X("p2", "bool", op=("cmp", "CEq", t), a=a, b=X("lit", t, v=2))))
+            out.append((leaves, X("p2", "bool", op=("cmp", "CNe", t), a=X("p1", t, op=("invf", n), a=a), b=b)))
+            out.append((leaves, X("p2", "bool", op=("in", False, n), a=X("lit", t, v=4), b=X("p2", t, op=("bit", "BitOr", t), a=a, b=X("lit", t, v=1)))))
+    leaves, a, b = two(DEC, sto_b=True)
+    for bo in BOPS:
+        out.append((leaves, X("bin", DEC, op=bo, a=a, b=b)))
+    out.append((leaves, X("bin", DEC, op="BMul", a=a, b=X("lit", DEC, v=25 * 10 ** 9))))
+    out.append((leaves, X("bin", DEC, op="BDiv", a=X("lit", DEC, v=DEC_SCALE), b=a)))
+    out.append((leaves, X("neg", DEC, a=a)))
+    for co in ("CLt", "CGe", "CEq"):
+        out.append((leaves, X("p2", "bool", op=("cmp", co, DEC), a=a, b=b)))
+    for t in (I256, ("i", 1, True), ("i", 16, True)):
+        leaves, a, b = two(t, sto_b=(t != I256))
+        for bo in BITS:
+            out.append((leaves, X("p2", t, op=("bit", bo, t), a=a, b=b)))
+    return out
+
+
+def make_sample(leaves, e):
+    src = program(leaves, e)
+    return {"src": src, "e": e, "leaves": leaves, "legacy": legacy_sample(src, leaves, e), "venom": venom_sample(src, leaves, e)}
 
 
 # ------------------------------------------------------------------ real compilers
@@ -684,9 +740,7 @@ def sample(rng, depth):
     g = gen_sample(rng, depth)
     if g is None:
         return None
-    leaves, e = g
-    src = program(leaves, e)
-    return {"src": src, "e": e, "leaves": leaves, "legacy": legacy_sample(src, leaves, e), "venom": venom_sample(src, leaves, e)}
+    return make_sample(*g)
 
 
 # ------------------------------------------------------------------ python meaning (for the search and as a cross-check)
@@ -781,7 +835,7 @@ def compile_runtime(src, venom):
 
 
 def run_evm(code, leaves, e, env):
-    """deploy the runtime code, set the state variables through init(..), call f(..) -> value / None (revert) / 'error'"""
+    """deploy the runtime code, set the state variables through setvars(..), call f(..) -> value / None (revert) / 'error'"""
     from vyper.utils import method_id_int
     from vlib.evm import Chain
     ch = Chain("cancun")
@@ -795,7 +849,7 @@ def run_evm(code, leaves, e, env):
     def enc(vals):
         return b"".join((v % 2 ** 256).to_bytes(32, "big") for v in vals)
     if sto:
-        sel = method_id_int("init(" + ",".join(ty_abi(t) for _, t in sto) + ")").to_bytes(4, "big")
+        sel = method_id_int("setvars(" + ",".join(ty_abi(t) for _, t in sto) + ")").to_bytes(4, "big")
         r = ch.call(addr, sel + enc([env[n] for n, _ in sto]), value=0, sender=sender)
         if not r.ok:
             return "error"
@@ -816,6 +870,8 @@ def exec_sample(s, rnd, tries):
         try:
             codes[pipe] = compile_runtime(src, venom)
         except Exception as ex:  # noqa
+            if type(ex).__name__ == "StaticAssertionException":
+                continue        # documented rejection: an assertion that fails on every path (e.g. a constant zero divisor)
             return [], f"{pipe}: {type(ex).__name__}: {str(ex)[:160]}"
     runs = []
     for _ in range(tries):
@@ -874,6 +930,9 @@ def build_static(ctx):
     b = ctx.coq_build_cached(LEGACY_FILES, deps=C03_DEPS + ["C01/ExprCompile.v", "C01/ExprCompileProofs.v"])
     if not b["ok"]:
         return b
+    b = ctx.coq_build_cached(BRIDGE_FILES, deps=C03_DEPS + ["C01/ExprCompile.v", "C01/VyCore.v", "C01/ExprX.v"])
+    if not b["ok"]:
+        return b
     return ctx.coq_build_cached(VENOM_FILES, deps=C03_DEPS + C01_DEPS + LEGACY_FILES, timeout=900)
 
 
@@ -895,11 +954,13 @@ def part_expr_x(ctx):
         ctx.corr["exprx_tie"] = stats
         return 0
     rng = ctx.rng("exprx")
-    want = 40 if ctx.tier == "quick" else 600
+    probes = probe_samples()
+    want = len(probes) + (36 if ctx.tier == "quick" else 600)
     samples, kinds, tries = [], {}, 0
+    stats["probes"] = len(probes)
     while len(samples) < want and tries < 6 * want:
+        s = make_sample(*probes[tries]) if tries < len(probes) else sample(rng, rng.choice([1, 2, 2, 3, 3]))
         tries += 1
-        s = sample(rng, rng.choice([1, 2, 2, 3, 3]))
         if s is None:
             continue
         if "rejected" in s["legacy"] or "rejected" in s["venom"]:
@@ -927,7 +988,7 @@ def part_expr_x(ctx):
     # ---- legacy: GenExprTieX.v + PropsExprX.v (real_ir_correct_x needs every sample to be tied)
     leg = [s for s in samples if "coq_e" in s["legacy"]]
     (COQ / "C01" / "GenExprTieX.v").write_text(render_legacy(leg))
-    deps = C03_DEPS + ["C01/ExprCompile.v", "C01/ExprCompileProofs.v"] + LEGACY_FILES
+    deps = C03_DEPS + ["C01/ExprCompile.v", "C01/ExprCompileProofs.v", "C01/VyCore.v"] + LEGACY_FILES + BRIDGE_FILES
     bl = ctx.coq_build_cached(["C01/GenExprTieX.v", "C01/PropsExprX.v"], deps=deps)
     if bl["ok"]:
         stats["legacy_tied"] = len(leg)
@@ -990,9 +1051,12 @@ def part_expr_x(ctx):
                               {"theorem": "vexpr_x_compile_correct (ylower e <> real output)", "source": s["src"],
                                "real_result": s["venom"]["coq_r"], "real_blocks": s["venom"]["coq_b"][:3000], "expr": s["venom"]["coq_e"][:1500]})
     # ---- executed: whole pipelines on pyrevm vs the Coq meaning yeval (and its python mirror)
-    nexec, ntries = (8, 3) if ctx.tier == "quick" else (120, 5)
+    nexec, ntries = (12, 3) if ctx.tier == "quick" else (120, 5)
     rx = ctx.rng("exprx-exec")
-    todo = [s for s in samples if "coq_e" in s["venom"]][:nexec]
+    cand = [s for s in samples if "coq_e" in s["venom"]]
+    np_ = len(probes)
+    off = rx.randrange(max(1, np_))
+    todo = [cand[(off + 5 * i) % np_] for i in range(nexec // 2) if np_ <= len(cand)] + cand[np_:np_ + nexec - nexec // 2]
     cases = []
     for s in todo:
         try:
@@ -1001,6 +1065,9 @@ def part_expr_x(ctx):
             runs, err = [], f"{type(ex).__name__}: {ex}"
         if err:
             stats.setdefault("exec_errors", []).append(err[:160])
+            if len(stats["exec_errors"]) <= 1:
+                ctx.violation("correspondence-broken", "an executed sample of the larger fragment could not be compiled as `return <expr>`",
+                              {"source": program(s["leaves"], s["e"], ret=True), "error": err[:400]})
             continue
         names = s["venom"]["names"]
         for env, obs in runs:
